@@ -243,9 +243,22 @@ theorem C02_dict_invariant (kvs : List (Key × Val)) (st : DStep) (hg : GoodD kv
     (ha : admissibleD st = true) : GoodD (specD kvs st).st :=
   specD_good kvs st hg ha
 
-theorem C02_dict_construct (init : List (Key × Val)) (h : ∀ p ∈ init, missingFree p.2 = true) :
-    PgDict.setAll [] init = PyDict.assignAll [] init ∧ GoodD (PyDict.assignAll [] init) :=
-  ⟨setAll_eq_assignAll h, goodD_assignAll (fun _ hp => by cases hp) h⟩
+/-- Construction `Dict(mapping, **kw)` (the constructor merges its arguments like `update`). -/
+theorem C02_dict_construct (init kw : List (Key × Val)) (h : ∀ p ∈ init ++ kw, missingFree p.2 = true)
+    (hd : mergeOk (init ++ kw) = true) :
+    PgDict.setAll [] (PgDict.mergePairs (init ++ kw)) = PyDict.assignAll [] (init ++ kw) ∧
+      GoodD (PyDict.assignAll [] (init ++ kw)) :=
+  ⟨setAll_merge_of_ok h hd, goodD_assignAll (fun _ hp => by cases hp) h⟩
+
+/-- One call may name a key any number of times (positional entry and keyword argument, or twice in
+an iterable of pairs): as long as no value is `MISSING`, merging the arguments first (pg) and
+assigning them in order (Python) end in the same contents and order, for every argument list. -/
+theorem C02_dict_update_repeated_keys (kvs pairs kw : List (Key × Val)) (nt : Bool) (hg : GoodD kvs)
+    (hm : ∀ p ∈ pairs ++ kw, p.2.isMissing = false) (hf : ∀ p ∈ pairs ++ kw, missingFree p.2 = true) :
+    implD kvs ⟨.update pairs kw, nt⟩ = specD kvs ⟨.update pairs kw, nt⟩ := by
+  apply step_dict kvs _ hg
+  simp only [admissibleD, mergeOk, Bool.and_eq_true, Bool.or_eq_true, List.all_eq_true, Bool.not_eq_true']
+  exact ⟨hf, Or.inr hm⟩
 
 theorem C02_dict_history (kvs : List (Key × Val)) (ops : List DStep) (hg : GoodD kvs)
     (ha : admissibleHistD kvs ops = true) : traceD implD kvs ops = traceD specD kvs ops := by
@@ -300,6 +313,19 @@ theorem C02_dict_history_conv (kvs : List (Key × Val)) (ops : List DStep) (hg :
     simp only [traceD, List.map_cons, hs]
     rw [ih _ (specD_good kvs _ hg (admissibleD_conv ha.1)) ha.2]
 
+/-- One call that names a key twice, first with `MISSING`: `d = {'k': 0, 'z': 1}; d.update({'k': MISSING}, k=5)`.
+The reference (entries in order) deletes `k` and re-inserts it at the end; pg merges the arguments
+into one dict first, so `k` is simply overwritten in place. Outside the documented behaviour of either
+side; the reason `admissibleD` asks for `mergeOk` (distinct keys, or no `MISSING` value). -/
+theorem C02_dict_counterexample_update_merge : ¬ C02_dict_refines_Full := by
+  intro h
+  have := congrArg (fun o => o.st.map (fun p => p.1))
+    (h [(.s "k", .int 0), (.s "z", .int 1)]
+      ⟨.update [(.s "k", .missing)] [(.s "k", .int 5)], true⟩
+      (by intro p hp; simp at hp; rcases hp with rfl | rfl <;> exact ⟨rfl, rfl⟩))
+  revert this
+  decide
+
 /-- Nested `MISSING` in a dict value: `d['x'] = {'a': MISSING}` stores `{}`. -/
 theorem C02_dict_counterexample_nested_missing : ¬ C02_dict_refines_Full := by
   intro h
@@ -331,7 +357,7 @@ example : (runL implL (ints [1, 2, 3, 4, 5])
      ⟨.append (.int 5), false⟩]).length = 3 := by decide
 
 example : admissibleHistD [(.s "a", .int 1)]
-    [⟨.set (.s "a") .missing, true⟩, ⟨.update [(.s "a.b", .int 1), (.i 3, .list [])], false⟩,
+    [⟨.set (.s "a") .missing, true⟩, ⟨.update [(.s "a.b", .int 1), (.i 3, .list []), (.s "y", .none)] [(.s "y", .bool true)], false⟩,
      ⟨.setdefault (.s "z") .none, true⟩, ⟨.popitem, true⟩] = true := by decide
 
 /-- arbitrary arguments: nested `MISSING` is admissible for the `conv` theorems; pg stores `[1]` and `{}` -/
